@@ -1,6 +1,10 @@
 package main
 
 import (
+	"encoding/json"
+	"os"
+	"os/exec"
+	"path/filepath"
 	"regexp"
 
 	"github.com/google/safehtml/simrt"
@@ -325,4 +329,113 @@ func (m *minimiser) sequentialise() {
 	c.Switches = nil
 	c.First = 0
 	m.try(c)
+}
+
+// ---------------------------------------------------------------- races --
+
+// The race detector reports each pair of code locations once per process, so
+// a race case cannot be shrunk in-process: every candidate is replayed in a
+// fresh process of this (race-build) binary.
+
+func raceReproduces(c *Case, sig string) bool {
+	self, err := os.Executable()
+	if err != nil {
+		return false
+	}
+	dir, err := os.MkdirTemp(*fScratch, "racemin-")
+	if err != nil {
+		return false
+	}
+	defer os.RemoveAll(dir)
+	path := filepath.Join(dir, "case.json")
+	b, _ := json.Marshal(c)
+	if os.WriteFile(path, b, 0o644) != nil {
+		return false
+	}
+	cmd := exec.Command(self, "-replay", path)
+	cmd.Env = append(os.Environ(), "GORACE=halt_on_error=0 exitcode=0 log_path="+filepath.Join(dir, "race"))
+	out, _ := cmd.CombinedOutput()
+	return strings.Contains(string(out), "sig="+sig+" ")
+}
+
+func minimiseRace(c *Case, v *Violation) (*Case, bool) {
+	deadline := time.Now().Add(90 * time.Second)
+	attempts := 0
+	best := c.clone()
+	try := func(cand *Case) bool {
+		if attempts >= 60 || time.Now().After(deadline) {
+			return false
+		}
+		attempts++
+		if raceReproduces(cand, v.Sig) {
+			best = cand
+			return true
+		}
+		return false
+	}
+	if !try(best.clone()) {
+		return c, false // does not even replay in a fresh process: report as found
+	}
+	// no faults
+	if len(best.Faults) > 0 {
+		cand := best.clone()
+		cand.Faults = nil
+		try(cand)
+	}
+	// fewer tasks
+	for t := len(best.Tasks) - 1; t >= 0 && len(best.Tasks) > 2; t-- {
+		cand := best.clone()
+		cand.Tasks = append(cand.Tasks[:t], cand.Tasks[t+1:]...)
+		var sw []simrt.Switch
+		for _, s := range cand.Switches {
+			if s.Task == t || s.To == t {
+				continue
+			}
+			if s.Task > t {
+				s.Task--
+			}
+			if s.To > t {
+				s.To--
+			}
+			sw = append(sw, s)
+		}
+		cand.Switches = sw
+		if cand.First == t {
+			cand.First = 0
+		} else if cand.First > t {
+			cand.First--
+		}
+		try(cand)
+	}
+	// fewer operations
+	for t := range best.Tasks {
+		for i := len(best.Tasks[t]) - 1; i >= 0; i-- {
+			if t >= len(best.Tasks) || i >= len(best.Tasks[t]) {
+				continue
+			}
+			cand := best.clone()
+			cand.Tasks[t] = append(cand.Tasks[t][:i], cand.Tasks[t][i+1:]...)
+			try(cand)
+		}
+	}
+	// no preemptions at all (a race does not need them: the detector judges ordering, not timing)
+	if len(best.Switches) > 0 {
+		cand := best.clone()
+		cand.Switches = nil
+		if !try(cand) && len(best.Switches) > 1 {
+			cand = best.clone()
+			cand.Switches = cand.Switches[:len(cand.Switches)/2]
+			try(cand)
+		}
+	}
+	// benign data
+	for _, op := range best.allOps() {
+		if op.Data == nil {
+			continue
+		}
+		cand := best.clone()
+		cand.opByID(op.ID).Data = benignData()
+		try(cand)
+	}
+	return best, attempts > 1
 }
